@@ -37,15 +37,15 @@ CONSTANTS LeafSet,     \* leaf types in the family
 VARIABLES scen, done
 gvars == <<scen, done, hooks, hist, last>>
 
-EDef(style) == [meta |-> StyleMeta[style],
+EDef(style) == [meta |-> StyleMeta[style], extends |-> "", pyname |-> "",
                 fields |-> <<Fld(PyName("E", style, 1), WireName("E", style, 1), LeafT("int"), TRUE)>>]
 DDef(style, withE) ==
-  [meta |-> StyleMeta[style],
+  [meta |-> StyleMeta[style], extends |-> "", pyname |-> "",
    fields |-> <<Fld(PyName("D", style, 1), WireName("D", style, 1), LeafT("int"), TRUE),
                 Fld(PyName("D", style, 2), WireName("D", style, 2), LeafT("str"), FALSE)>>
               \o (IF withE THEN <<Fld(PyName("D", style, 3), WireName("D", style, 3), ClsT("E"), TRUE)>> ELSE <<>>)]
 ADef(style, tys, reqs) ==
-  [meta |-> StyleMeta[style],
+  [meta |-> StyleMeta[style], extends |-> "", pyname |-> "",
    fields |-> [i \in 1..Len(tys) |-> Fld(PyName("A", style, i), WireName("A", style, i), tys[i], reqs[i])]]
 
 RECURSIVE UsesD(_)
@@ -77,7 +77,7 @@ Pair ==
 \* (never all direct: no finite instance), renamed wire keys on every class, every class of the cycle as entry class
 LinkTy(kind, to) == CASE kind = "list" -> ListT(ClsT(to)) [] kind = "dict" -> DictT(ClsT(to)) [] OTHER -> ClsT(to)
 CDef(role, style, to, kind) ==
-  [meta |-> StyleMeta[style],
+  [meta |-> StyleMeta[style], extends |-> "", pyname |-> "",
    fields |-> <<Fld(PyName(role, style, 1), WireName(role, style, 1), LeafT("str"), TRUE),
                 Fld(PyName(role, style, 2), WireName(role, style, 2), LinkTy(kind, to), kind # "opt")>>]
 Cycle2 ==
@@ -98,20 +98,20 @@ Cycle3 ==
 \* or a wrapper W holding a base instance and a derived instance in either field order (the order in which the
 \* two classes are first converted).
 OwnStyle(mode) == IF mode = "inherit" THEN "plain" ELSE "camel"
-HDef(sb) == [meta |-> StyleMeta[sb],
+HDef(sb) == [meta |-> StyleMeta[sb], extends |-> "", pyname |-> "",
              fields |-> <<Fld(PyName("A", sb, 1), WireName("A", sb, 1), LeafT("str"), TRUE),
                           Fld(PyName("A", sb, 2), WireName("A", sb, 2), LeafT("int"), FALSE)>>]
 HsDef(sb, mode, ov, mx) ==
-  [meta |-> mode, extends |-> "H", mixin |-> mx,
+  [meta |-> mode, extends |-> "H", pyname |-> "", mixin |-> mx,
    fields |-> <<Fld(PyName("D", OwnStyle(mode), 1), WireName("D", OwnStyle(mode), 1), LeafT("date"), FALSE)>>
               \o (IF ov = "type" THEN <<Fld(PyName("A", sb, 2), WireName("A", sb, 2), LeafT("str"), FALSE)>>
                   ELSE IF ov = "default" THEN <<Fld(PyName("A", sb, 1), WireName("A", sb, 1), LeafT("str"), FALSE)>>
                   ELSE <<>>)]
 HssDef(mode) ==
-  [meta |-> mode, extends |-> "Hs", mixin |-> FALSE,
+  [meta |-> mode, extends |-> "Hs", pyname |-> "", mixin |-> FALSE,
    fields |-> <<Fld(PyName("E", OwnStyle(mode), 1), WireName("E", OwnStyle(mode), 1), LeafT("bool"), FALSE)>>]
 WDef(first, second) ==
-  [meta |-> "none", fields |-> <<Fld("first", "first", ClsT(first), TRUE), Fld("second", "second", ClsT(second), TRUE)>>]
+  [meta |-> "none", extends |-> "", pyname |-> "", fields |-> <<Fld("first", "first", ClsT(first), TRUE), Fld("second", "second", ClsT(second), TRUE)>>]
 Hier ==
   {[classes |-> [n \in {"H", "Hs"} \cup (IF d = 3 THEN {"Hss"} ELSE {}) \cup (IF tp = "sub" THEN {} ELSE {"W"}) |->
                    IF n = "H" THEN HDef(sb) ELSE IF n = "Hs" THEN HsDef(sb, mode, ov, mx) ELSE IF n = "Hss" THEN HssDef(mode)
